@@ -151,6 +151,9 @@ Usage: ggqlgen [options] [<schema-file>...]
 		}
 		exists[t.Name()] = true
 	}
+	// Directive definitions are kept apart from the types so track them under
+	// a name that can not be a type name.
+	dirKey := func(t ggql.Type) string { return "@" + t.Name() }
 	var files []string
 
 	files = append(files, flag.Args()...)
@@ -214,6 +217,18 @@ Usage: ggqlgen [options] [<schema-file>...]
 				}
 				exists[t.Name()] = true
 			}
+			for _, t := range root.Directives() {
+				if t.Core() || exists[dirKey(t)] {
+					continue
+				}
+				if e != nil {
+					e.types[dirKey(t)] = true
+				}
+				if o != nil {
+					o.types[dirKey(t)] = true
+				}
+				exists[dirKey(t)] = true
+			}
 		}
 	}
 	for _, e := range embeds.embeds {
@@ -228,6 +243,12 @@ Usage: ggqlgen [options] [<schema-file>...]
 				continue
 			}
 			if e.types[t.Name()] {
+				buf = append(buf, '\n')
+				buf = append(buf, t.SDL(true)...)
+			}
+		}
+		for _, t := range root.Directives() {
+			if e.types[dirKey(t)] {
 				buf = append(buf, '\n')
 				buf = append(buf, t.SDL(true)...)
 			}
@@ -253,6 +274,12 @@ Usage: ggqlgen [options] [<schema-file>...]
 				continue
 			}
 			if o.types[t.Name()] {
+				buf = append(buf, '\n')
+				buf = append(buf, t.SDL(true)...)
+			}
+		}
+		for _, t := range root.Directives() {
+			if o.types[dirKey(t)] {
 				buf = append(buf, '\n')
 				buf = append(buf, t.SDL(true)...)
 			}
